@@ -32,15 +32,17 @@ Inductive iop : Type :=
 | IDD (bo : N) (c : list N)
 | IDS (fo : N) (c : list N)
 | IRD (plan : list bool) (r : list (N * N * N * Z * string)) (c : list N)
+| IXD (c : list N)
 | IPANIC (o : cop).
 
-Definition ccase : Type := (N * string * list (string * Z) * list iop)%type.
+(* block size, streamed container (gz / bz2 / lz4) or plain file, the bytes, the oracle table, the operations *)
+Definition ccase : Type := (N * bool * string * list (string * Z) * list iop)%type.
 
 Definition iop_cop (o : iop) : cop :=
   match o with
   | IL fo _ _ => OL fo | ILB fo _ _ _ => OLB fo | ILE on _ => OLE on
   | IS fo _ _ => OS fo | ISB fo _ _ _ => OSB fo | ISE on _ => OSE on
-  | IDD bo _ => ODD bo | IDS fo _ => ODS fo | IRD plan _ _ => ORD plan
+  | IDD bo _ => ODD bo | IDS fo _ => ODS fo | IRD plan _ _ => ORD plan | IXD _ => OXD
   | IPANIC o => o
   end.
 
@@ -51,17 +53,23 @@ Fixpoint eqlist (a b : list N) : bool :=
   | _, _ => false
   end.
 
-Definition lc_list (st : lr_state) : list N :=
+Definition bc_list (b : bstate) : list N :=
+  let c := b_cnt b in
+  [bc_lru_hit c; bc_lru_miss c; bc_lru_put c; bc_hit c; bc_miss c; bc_put c; bc_reread c; bc_highest c;
+   bc_drop_ok c; bc_drop_err c; lenN (b_read b)].
+
+Definition lc_list0 (st : lr_state) : list N :=
   let c := l_cnt st in
   [lc_processed c; lc_highest c; lc_hits c; lc_miss c; lc_lru_hit c; lc_lru_miss c; lc_lru_put c;
    lc_drop_ok c; lc_drop_err c].
+Definition lc_list (st : lr_state) : list N := lc_list0 st ++ bc_list (l_blk st).
 
 Definition sc_list (st : sr_state) : list N :=
   let c := s_cnt st in
   [sc_count c; sc_highest c; sc_hit c; sc_miss c; sc_range_hit c; sc_range_miss c; sc_range_put c;
    sc_lru_hit c; sc_lru_miss c; sc_lru_put c; sc_parse_hit c; sc_parse_miss c; 0;
    sc_drop_ok c; sc_drop_err c; lenN (s_syslines st); lc_processed (l_cnt (s_lr st))]
-  ++ lc_list (s_lr st).
+  ++ lc_list0 (s_lr st) ++ bc_list (l_blk (s_lr st)).
 
 Definition line_agrees (bs : N) (f : file) (fo_next : N) (ln : line) (r : N * N * N * N * N * N * string) : bool :=
   let '(ifo, ib, ie, inp, ibf, ibl, ih) := r in
@@ -106,7 +114,7 @@ Definition cmp_sysline (bs : N) (f : file) (m : res (N * ssl)) (r : sans) : N :=
 Definition lpath_code (p : lpath) : N :=
   match p with
   | PLru => 0 | PEof => 1 | PLines => 2 | PByEnd => 3 | PA0 => 4 | PA1a => 5 | PA1b => 6
-  | PSearch => 7 | PInBlockDone => 8 | PFail => 9
+  | PSearch => 7 | PInBlockDone => 8 | PFail => 9 | PGone => 50
   end.
 Definition spath_code (p : spath) : N :=
   match p with
@@ -138,6 +146,7 @@ Definition cmp_step (bs : N) (f : file) (st : cstate) (o : iop) (x : cres) : N :
   | ISE _ c, RU => cnt 0 (eqlist (sc_list s) c)
   | IDD _ c, RU => cnt 0 (eqlist (sc_list s) c)
   | IDS _ c, RU => cnt 0 (eqlist (sc_list s) c)
+  | IXD c, RU => cnt 0 (eqlist (sc_list s) c)
   | IRD _ r c, RR m =>
       cnt (match m with
            | Found sls => if stream_agrees bs f (map ss_sysline sls) r then 0 else 1
@@ -160,7 +169,7 @@ Fixpoint replay (dated : list N -> option Z) (bs : N) (f : file) (st : cstate) (
 
 Definition cache_bad (cs : list ccase) : list (N * N) :=
   flat_map (fun ic =>
-    let '(i, (bs, fh, tab, ops)) := ic in
+    let '(i, (bs, stream, fh, tab, ops)) := ic in
     map (fun jc => if fst jc <? 1000000000 then (1000 * i + fst jc, snd jc) else jc)
-        (replay (dated_tab tab) bs (unhex fh) cinit 0 ops))
+        (replay (dated_tab tab) bs (unhex fh) (cinit_k stream) 0 ops))
     (index_from 0 cs).
